@@ -73,6 +73,27 @@ def d1(chk, prog, ks, ploidies):
                 else:
                     ok = same(got, want)
                 tb.cell(ok, dict(k=k, ploidy=P, hap=hap, naming=style or "bare", cls=c, position=j, nan=nan, got=repr(got), want=want))
+    # a literal table whose chromosomes are interleaved (rows sorted by something else, concatenated batches): every row is called with its own chromosome's reference copies
+    k = 2
+    for P, hap in itertools.product([2, 3], [False, True]):
+        W.reset()
+        it = Interp(prog)
+        thr = [OrderVal(f"t{i}", 10 * i, None) for i in range(k)]
+        reps = [10 * (j // 2) - 5 if j % 2 == 0 else 10 * (j // 2) for j in range(2 * k + 1)]
+        layout = [("auto", "chr1", 4), ("x", "chrX", 4), ("auto", "chr2", 1), ("y", "chrY", 4), ("x", "chrX", 2), ("auto", "chr1", 4), ("y", "chrY", 0), ("auto", "chr2", 3)]
+        rows = [{"chromosome": name, "start": 10 * i, "end": 10 * i + 5, "gene": "g", "log2": OrderVal(f"w{i}", reps[j], None)} for i, (c, name, j) in enumerate(layout)]
+        g = make_ga("CopyNumArray", rows, {"sample_id": "S"}, index="any", exact=True, labels=[3 * i + 5 for i in range(len(rows))][::-1])
+        out = tb.guard(lambda: it.run(THR, [g, P, thr, hap]), f"interleaved chromosomes P={P} hap={hap}")
+        if out is None:
+            continue
+        if not isinstance(out, Vec) or len(out.v) != len(layout):
+            tb.cell(False, dict(layout="interleaved chromosomes", ploidy=P, problem="result does not have one slot per input row", got=repr(out)))
+            continue
+        for (c, name, j), row, got in zip(layout, rows, out.v):
+            r = ref_exp_oracle(c, P, hap, True, None)[0]
+            want = thr_oracle(j, k, r, P, False)
+            ok = same(got, f_trunc(f_ceil(t_mul(T(r), f_exp2(row["log2"].sym))))) if want == "ceil" else same(got, want)
+            tb.cell(ok, dict(layout="interleaved chromosomes", ploidy=P, hap=hap, chromosome=name, position=j, got=repr(got), want="ceil(r*2^v)" if want == "ceil" else want))
     tb.done("threshold calling is not the stated step function",
             sample=dict(clause="D1", k=2, positions="<t0, =t0, (t0,t1), =t1, >t1", cn="0,0,1,1,ceil(r*2^v)"))
     # within one process: the call of one table does not depend on the calls made before it (one interpreter, the ploidy / reference sex changing between calls)
